@@ -144,7 +144,7 @@ class C16(Check):
         "error names / deprecation) x annotations (errors incl. ONE list object shared by several methods, tags, examples, summary, "
         "description, deprecated, servers, security, external docs, explicit params / result schemas, per-method component_name_prefix) x "
         "extractor stacks {base, pydantic, docstring, [pydantic, docstring], [docstring, pydantic]} x document kind {OpenAPI 3.1.0, OpenAPI "
-        "3.0.3, OpenRPC 1.3.2} x spec-level options (servers, tags, security schemes, external docs) x 1..2 endpoint prefixes x 1..3 repeated "
+        "3.0.3, OpenRPC 1.3.2} x spec-level options (servers, tags, security schemes, external docs, error -> HTTP status map) x 1..2 endpoint prefixes x 1..3 repeated "
         "generations. Oracle: (1) json.dumps(doc, cls=specs.JSONEncoder) succeeds; (2) the document validates against the meta-schema shipped "
         "in tests/server/resources (jsonschema 3.2, as the repository's tests do); (3) every $ref resolves inside the document; (4) every method "
         "appears exactly once under its exposed name (and endpoint path), nothing else; (5) purity: structural snapshots of every method's "
@@ -161,7 +161,7 @@ class C16(Check):
     trusted_base = ['jsonschema 3.2 + the meta-schemas in tests/server/resources', 'python json']
     required_classes = ['kind/openapi-3.1.0', 'kind/openapi-3.0.3', 'kind/openrpc', 'extractors/base', 'extractors/pydantic', 'extractors/docstring',
                         'extractors/pydantic+docstring', 'extractors/docstring+pydantic', 'shared-errors-list', 'generations>=2', 'methods>=2',
-                        'annot/prefix', 'annot/examples', 'annot/errors', 'flavour/view', 'endpoints/2', 'doc/full', 'doc/bare-types']
+                        'annot/prefix', 'annot/examples', 'annot/errors', 'flavour/view', 'endpoints/2', 'doc/full', 'doc/bare-types', 'opts/status-map']
 
     # ---- generation -------------------------------------------------------------------------------------------
 
@@ -186,7 +186,8 @@ class C16(Check):
             'kind': st.sampled_from(['openapi-3.1.0', 'openapi-3.1.0', 'openapi-3.0.3', 'openrpc', 'openrpc']),
             'extractors': st.sampled_from([['base'], ['pydantic'], ['pydantic'], ['docstring'], ['pydantic', 'docstring'], ['docstring', 'pydantic']]),
             'methods': st.lists(s_method, min_size=1, max_size=4), 'endpoints': st.sampled_from([1, 1, 2]), 'generations': st.sampled_from([1, 2, 2, 3]),
-            'spec_opts': st.fixed_dictionaries({'servers': s_bool, 'tags': s_bool, 'security': s_bool, 'external_docs': s_bool}),
+            'spec_opts': st.fixed_dictionaries({'servers': s_bool, 'tags': s_bool, 'security': s_bool, 'external_docs': s_bool,
+                                                'status_map': st.sampled_from([None, None, {'2001': 404, '-32601': 404}, {'2002': 409, '-32602': 422, '2001': 404}])}),
             'path': st.sampled_from(['/api', '/', '/api/v1', '']),
         })
 
@@ -345,6 +346,8 @@ class C16(Check):
             kw['security_schemes'] = {'basic': openapi.SecurityScheme(type=openapi.SecuritySchemeType.HTTP, scheme='basic')}
         if o['external_docs']:
             kw['external_docs'] = openapi.ExternalDocumentation(url='http://docs')
+        if o.get('status_map'):
+            kw['error_http_status_map'] = {int(k): v for k, v in o['status_map'].items()}
         return openapi.OpenAPI(info=openapi.Info(title='t', version='1.0'), schema_extractors=stack, **kw), kw
 
     # ---- run -----------------------------------------------------------------------------------------------------------
@@ -471,6 +474,8 @@ class C16(Check):
             classes.append('methods>=2')
         if spec['generations'] >= 2:
             classes.append('generations>=2')
+        if spec['spec_opts'].get('status_map') and not is_rpc:
+            classes.append('opts/status-map')
         annotated = [m for m in spec['methods'] if m['annotated']]
         shared = len([m for m in annotated if m['annot']['errors'] == 'shared']) >= 2
         if shared:
